@@ -130,10 +130,21 @@ class Slicer(object):
                         out |= self._operand(rv["ops"][0], path, visiting)
                     elif not path:
                         out.add(("agg", rv["def"], bb, ()))
+                    elif self.prog.adts[rv["def"]]["kind"] == "Enum" and not path[0].startswith("#") and \
+                            not path[0].isdigit() and any(
+                                path[0] in [f["name"] for f in v["fields"]] for v in self.prog.adts[rv["def"]]["variants"]):
+                        # `(stage as Announced).blob_hash`: a value of another variant (which has no such field) built
+                        # elsewhere is not where this field comes from
+                        pass
                     else:
                         out.add(("agg", rv["def"], bb, tuple(path)))
                 elif ak == "closure":
-                    out.add(("agg", "closure:" + rv["def"], bb, tuple(path)))
+                    if path and path[0].startswith("<upvar") and path[0][6:-1].isdigit() and \
+                            int(path[0][6:-1]) < len(rv["ops"]):
+                        # a capture read back out of the closure value (the closure's body inlined into a view)
+                        out |= self._operand(rv["ops"][int(path[0][6:-1])], path[1:], visiting)
+                    else:
+                        out.add(("agg", "closure:" + rv["def"], bb, tuple(path)))
                 elif self.skip_err and rv.get("def") == "std::result::Result" and rv.get("vn") == "Err":
                     pass
                 elif ak == "tuple" and path and path[0].startswith("#") and int(path[0][1:]) < len(rv["ops"]):
